@@ -1,6 +1,7 @@
 INIT Init
 NEXT Next
 CONSTANTS
+  SetDups = FALSE
   MaxVals = 40
   Depth = 2
   ReadVals = 2
